@@ -397,7 +397,7 @@ def _grid_of_solve(model, t_start, t_end, dt):
     def getitem(it, obj, idx, node, fi):
         seq = [t_start, t_end]
         return seq[idx]
-    ts = Obj("ts", getitem_hook=getitem, attrs={"__len__": Intrinsic("len", lambda it, a, k, n, f: Fraction(2))})
+    ts = Obj("ts", getitem_hook=getitem, attrs=ik.ts_attrs(Fraction(2)))
 
     class H(ik.LoopHooks):
         def on_call(self, interp, callee, args, kwargs, node, fi):
